@@ -119,6 +119,11 @@ func (sc *Scheduler) Schedule(ctx context.Context, g *ExecutionGraph, done chan 
 			if node.State().Status != NodeStatusNone || !isReady(g, node) {
 				continue NodesIteration
 			}
+			// A node waiting for a retry must not be relaunched before the
+			// worker of its previous attempt has torn down (closed its files).
+			if node.inFlight.Load() {
+				continue NodesIteration
+			}
 			if sc.isCanceled() {
 				break NodesIteration
 			}
@@ -139,9 +144,11 @@ func (sc *Scheduler) Schedule(ctx context.Context, g *ExecutionGraph, done chan 
 
 			sc.logger.Info("Step execution started", "step", node.data.Step.Name)
 			node.setStatus(NodeStatusRunning)
+			node.inFlight.Store(true)
 			go func(node *Node) {
 				defer func() {
 					node.finish()
+					node.inFlight.Store(false)
 					wg.Done()
 				}()
 
